@@ -28,7 +28,7 @@ type fcase struct {
 	Bal    string `json:"balancer"`
 }
 
-var modes = []string{"zero-healthy", "unknown-model", "all-refuse", "all-reset", "all-eof", "all-garbage", "all-circuit-open", "backend-400", "backend-404", "backend-429", "backend-500", "backend-503", "backend-500-nonjson", "backend-500-ansi", "unknown-model-ctrl", "backend-500-large", "backend-400-huge-chunked", "malformed-200-json", "empty-200", "200-empty-object", "200-no-choices", "200-choice-without-message", "200-error-member-only"}
+var modes = []string{"zero-healthy", "unknown-model", "all-refuse", "all-reset", "all-eof", "all-garbage", "all-circuit-open", "backend-400", "backend-404", "backend-429", "backend-500", "backend-503", "backend-500-nonjson", "backend-401-empty", "backend-503-empty", "backend-500-ansi", "unknown-model-ctrl", "backend-500-large", "backend-400-huge-chunked", "malformed-200-json", "empty-200", "200-empty-object", "200-no-choices", "200-choice-without-message", "200-error-member-only"}
 var routes = []string{"proxy", "provider", "passthrough", "translated"}
 
 func TestC05(t *testing.T) {
@@ -152,6 +152,9 @@ func oneCase(run *rep.Run, w *world.World, hc *http.Client, bA, bB *backend.Std,
 			body, ct = []byte("<html>Internal Server Error</html>"), "text/html"
 		}
 		chunked := false
+		if strings.HasSuffix(c.Mode, "-empty") { // an error status and nothing else
+			body = []byte{}
+		}
 		if strings.HasSuffix(c.Mode, "-ansi") { // a coloured traceback in the backend's error message
 			msg, _ := json.Marshal("backend says 500 \x1b[31mTraceback\x1b[0m \x07 \x7f \x00 caf\u00e9 \U000e0001")
 			body = []byte(`{"error":{"message":` + string(msg) + `,"type":"server_error"}}`)
@@ -250,13 +253,13 @@ func oneCase(run *rep.Run, w *world.World, hc *http.Client, bA, bB *backend.Std,
 		run.Violation(k, fmt.Sprintf("status %d although no backend produced a usable response", res.Status), wit)
 		return
 	}
-	if len(bytes.TrimSpace(res.Body)) == 0 {
+	if len(bytes.TrimSpace(res.Body)) == 0 && !(strings.HasSuffix(c.Mode, "-empty") && !ollaMade) { // (a backend's own empty error answer is relayed as it is)
 		run.Violation("C05/empty-error-body/"+cls, fmt.Sprintf("status %d with an empty body", res.Status), wit)
 	}
 	if wantStatus != 0 && res.Status != wantStatus {
 		run.Violation("C05/backend-status-changed/"+cls, fmt.Sprintf("backend answered %d, client got %d", wantStatus, res.Status), wit)
 	}
-	if wantStatus != 0 && !ollaMade && !bytes.Contains(res.Body, []byte("backend says")) && !bytes.Contains(res.Body, []byte("Internal Server Error")) {
+	if wantStatus != 0 && !ollaMade && !strings.HasSuffix(c.Mode, "-empty") && !bytes.Contains(res.Body, []byte("backend says")) && !bytes.Contains(res.Body, []byte("Internal Server Error")) {
 		run.Violation("C05/backend-error-body-replaced/"+cls, "the backend's own error body was not relayed", wit)
 	}
 	if (c.Route == "passthrough" || c.Route == "translated") && ollaMade {
